@@ -1597,7 +1597,7 @@ def run_C10(rep, tier, rng):
             rep.violation("validation error is not truthful: " + why, {"source": text, "impl": ip[errs[0]], "injected": labels})
     report_disagreements(rep, dis, "validation result (error variant and payload, or validated file)", "C10_ok_sound / C10_err_truthful")
     return {"evaluations": len(cases), "distinct_nontrivial": kv.distinct_count([t for (it, labs), t in zip(cases, texts) if labs]),
-            "rule": "valid grammars with 0–3 injected static violations out of 23 kinds (including the offending name existing in the other namespace: terminal used as nonterminal, nonterminal used as terminal, terminal enum name used as nonterminal, start naming a terminal); Ok ⇒ WellFormed and Err ⇒ Truthful evaluated on the implementation's answer (any truthful error is accepted); non-trivial = at least one violation injected",
+            "rule": "valid grammars with 0–3 injected static violations out of 28 kinds (including violations inside declarations nothing refers to, so that no later stage can mask the verdict; and the offending name existing in the other namespace: terminal used as nonterminal, nonterminal used as terminal, terminal enum name used as nonterminal, start naming a terminal); Ok ⇒ WellFormed and Err ⇒ Truthful evaluated on the implementation's answer (any truthful error is accepted); non-trivial = at least one violation injected",
             "samples": sample([t for (it, labs), t in zip(cases, texts) if labs]), "error_variants_hit": hit, "model_disagreements": len(dis)}
 
 
